@@ -55,6 +55,8 @@ func c17Groups(tier string) []core.Group {
 	}
 	gs = append(gs, core.Group{Key: "map-err", Run: c17MapErr})
 	gs = append(gs, core.Group{Key: "masked-arg", Run: c17MaskedArg})
+	gs = append(gs, core.Group{Key: "masked-map", Run: c17MaskedMap})
+	gs = append(gs, core.Group{Key: "reduce-order", Run: c17ReduceOrder})
 	gs = append(gs, core.Group{Key: "durable", Run: c17Durable})
 	gs = append(gs, core.Group{Key: "getset", Run: c17GetSet})
 	gs = append(gs, core.Group{Key: "native", Run: c17Native})
@@ -1322,4 +1324,132 @@ func c17Durable(c *core.Ctx) {
 	}
 	// negative control: the comparison notices a single replaced string
 	c.Control(fmt.Sprint([]string{fresh(1), "ZZ3"}) != fmt.Sprint([]string{fresh(1), fresh(2)}))
+}
+
+// countingFn wraps the typed x -> x+1 of applyFn and counts its calls.
+func countingFn(t reflect.Type, calls *int) interface{} {
+	plain, _ := applyFn(t)
+	pv := reflect.ValueOf(plain)
+	ft := reflect.FuncOf([]reflect.Type{t}, []reflect.Type{t}, false)
+	return reflect.MakeFunc(ft, func(in []reflect.Value) []reflect.Value {
+		*calls++
+		return pv.Call(in)
+	}).Interface()
+}
+
+// c17MaskedMap: Apply on a masked tensor, per element type. What a mask means for Apply is one decision of the library (masked
+// elements are skipped); every element type has to take it the same way: the same elements transformed, the same number of
+// calls of the function.
+func c17MaskedMap(c *core.Ctx) {
+	shape := []int{2, 3}
+	vi := []int64{3, 0, 5, 1, 6, 2}
+	mask := []bool{false, true, false, false, true, false}
+	for _, mode := range []string{"unsafe", "safe"} {
+		var obs []xtObs
+		for _, t := range model.AllTypes {
+			if !model.IsNumber(t) {
+				continue
+			}
+			op, err := gen.Build(model.New(t, shape, fromInts(t, vi)), gen.LC, c.Rng)
+			if err != nil {
+				continue
+			}
+			op.D.MaskFromSlice(append([]bool(nil), mask...))
+			calls := 0
+			fn := countingFn(t, &calls)
+			var opts []tensor.FuncOpt
+			if mode == "unsafe" {
+				opts = append(opts, tensor.UseUnsafe())
+			}
+			var res tensor.Tensor
+			var rerr error
+			p, _ := core.Catch(func() { res, rerr = op.D.Apply(fn, opts...) })
+			c.Eval(core.Sig("masked-Apply", model.Name(t), mode), true)
+			if p || rerr != nil {
+				obs = append(obs, xtObs{t: t, aux: "refused"})
+				continue
+			}
+			rd, _ := res.(*tensor.Dense)
+			if rd == nil {
+				obs = append(obs, xtObs{t: t, aux: "not-dense"})
+				continue
+			}
+			// raw values (masked positions included): read the storage, not through a masked accessor
+			raw := model.FromSlice(rd.Data())
+			obs = append(obs, xtObs{t: t, vals: carriers(raw), aux: fmt.Sprintf("calls=%d masked=%v ", calls, rd.IsMasked())})
+		}
+		xtAgree(c, core.Sig("masked-Apply", mode), "masked-map/"+mode, map[string]interface{}{"values": vi, "mask": mask, "mode": mode}, obs)
+		if c.WantSample("masked-map") {
+			c.Sample("masked-map", map[string]interface{}{"values": vi, "mask": mask, "mode": mode})
+		}
+	}
+	c.Control(c17Deviants([]xtObs{{t: model.TInt, vals: []complex128{4}, aux: "calls=4"}, {t: model.TInt8, vals: []complex128{4}, aux: "calls=4"}, {t: model.TUint8, vals: []complex128{4}, aux: "calls=6"}})[0] == model.TUint8)
+}
+
+// c17ReduceOrder: the generic Reduce with a NON-commutative function, on every element type incl. strings, along every axis:
+// fold(acc, x) must be called with the accumulator on the left for every type. Numeric types fold a*10+b over digits, strings
+// concatenate the same digits; the results are compared as digit strings.
+func c17ReduceOrder(c *core.Ctx) {
+	digitFn := func(t reflect.Type) interface{} {
+		ft := reflect.FuncOf([]reflect.Type{t, t}, []reflect.Type{t}, false)
+		return reflect.MakeFunc(ft, func(in []reflect.Value) []reflect.Value {
+			a, b := in[0].Interface(), in[1].Interface()
+			if t.Kind() == reflect.String {
+				return []reflect.Value{reflect.ValueOf(a.(string) + b.(string))}
+			}
+			ten, _ := model.Bin("Mul", a, model.FromInt(t, 10))
+			r, _ := model.Bin("Add", ten, b)
+			return []reflect.Value{reflect.ValueOf(r)}
+		}).Interface()
+	}
+	types := []reflect.Type{model.TInt32, model.TInt64, model.TUint32, model.TF64, model.TStr}
+	for _, shape := range [][]int{{2, 3}, {2, 3, 2}, {2, 2, 2, 2}} {
+		n := model.Size(shape)
+		for ax := range shape {
+			var obs []xtObs
+			for _, t := range types {
+				vals := make([]interface{}, n)
+				for i := range vals {
+					d := int64(1 + (i*7+3)%9) // no palindromes along any axis
+					if t.Kind() == reflect.String {
+						vals[i] = fmt.Sprint(d)
+					} else {
+						vals[i] = model.FromInt(t, d)
+					}
+				}
+				op, err := gen.Build(model.New(t, shape, vals), gen.LC, c.Rng)
+				if err != nil {
+					continue
+				}
+				def := model.Zero(t)
+				var res tensor.Tensor
+				var rerr error
+				p, _ := core.Catch(func() { res, rerr = op.D.Reduce(digitFn(t), ax, def) })
+				c.Eval(core.Sig("Reduce-order", model.Name(t), shapeStr(shape), fmt.Sprint(ax)), true)
+				if p || rerr != nil {
+					c.Refused("Reduce-order:" + model.Name(t))
+					continue
+				}
+				got, gerr := gen.ReadAll(res)
+				if gerr != nil {
+					continue
+				}
+				// as digit strings (the leading default 0 of the numeric fold contributes nothing; strings start from "")
+				ds := make([]complex128, len(got.V))
+				for i, v := range got.V {
+					str := fmt.Sprint(v)
+					if t.Kind() != reflect.String {
+						str = fmt.Sprint(int64(model.ToFloat(v)))
+					}
+					var x float64
+					fmt.Sscan(str, &x)
+					ds[i] = complex(x, 0)
+				}
+				obs = append(obs, xtObs{t: t, vals: ds, aux: shapeStr(got.Shape)})
+			}
+			xtAgree(c, core.Sig("Reduce-order", fmt.Sprintf("rank%d", len(shape)), fmt.Sprint(ax)), fmt.Sprintf("reduce-order/%s/%d", shapeStr(shape), ax),
+				map[string]interface{}{"shape": shape, "axis": ax, "function": "acc*10+x (strings: acc+x)"}, obs)
+		}
+	}
+	c.Control(c17Deviants([]xtObs{{t: model.TInt32, vals: []complex128{159}}, {t: model.TInt64, vals: []complex128{159}}, {t: model.TStr, vals: []complex128{951}}})[0] == model.TStr)
 }
